@@ -414,10 +414,26 @@ extern "C" fn death_handler(sig: libc::c_int) {
     unsafe { libc::_exit(4) }
 }
 
+#[cfg(feature = "asan")]
+extern "C" {
+    fn __sanitizer_set_death_callback(cb: extern "C" fn());
+}
+
+#[cfg(feature = "asan")]
+extern "C" fn asan_death() {
+    // runs on the thread whose access the sanitizer reported
+    let slot = MY_SLOT.try_with(|s| s.get()).unwrap_or(usize::MAX);
+    write_death(b"ASAN", slot);
+}
+
 /// Install handlers that report the case in flight when the process dies (abort on allocation
 /// failure, stack overflow, sanitizer abort). `fd` is where the DEATH line goes.
 pub fn install_death_recorder(fd: i32) {
     DEATH_FD.store(fd, Ordering::SeqCst);
+    #[cfg(feature = "asan")]
+    unsafe {
+        __sanitizer_set_death_callback(asan_death);
+    }
     unsafe {
         for &sig in &[libc::SIGABRT, libc::SIGSEGV, libc::SIGBUS, libc::SIGILL, libc::SIGFPE] {
             let mut sa: libc::sigaction = std::mem::zeroed();
